@@ -13,6 +13,14 @@ CLAIMS = {
     # id: (technique, design_ref, extra level text)
     "C01": ("path-sensitive must-pass-through (gate) and ordering rules over Clang CFGs with flag tracking", "§4 C01",
             "every accept exit of node/token reuse is dominated by all reuse checks with the required outcome"),
+    "C04": ("must-pass-through gates with enum-flag tracking over Clang CFGs; who-may-append table for TSRangeArray", "§4 C04",
+            "a pair of subtrees is skipped only after every difference test and the included-range-difference test failed; changed steps are recorded; ranges appended only via the merging helper"),
+    "C06": ("sibling agreement (CFG isomorphism under substitution), field coverage of cursor entries, index-width cast scan, gates on field selection", "§4 C06",
+            "byte/point and all/named variants are the same algorithm; iterators keep the structural-index discipline; no narrowed tree index"),
+    "C09": ("field-coverage classification of parser/lexer state + all-paths reset rules + resume-path store discipline over Clang CFGs", "§4 C09",
+            "every piece of parser state is reset between documents and none is clobbered when a cancelled parse is resumed"),
+    "C11": ("pairing rule (flag set before every exhaustion-caused discard), field coverage of cursor re-initialisation, gate on match removal", "§4 C11",
+            "a match limit that drops matches is always reported; re-executing a cursor starts from clean per-execution state"),
     "C08": ("who-may-write tables + licence-class gates over the Clang-resolved program; call-graph closure of the read-only API; compile-fail witnesses", "§4 C08",
             "no non-atomic write to shared nodes, every in-place mutation licensed by fresh/ref_count==1/dec-to-zero"),
 }
